@@ -2,6 +2,16 @@
 """Regenerates MANIFEST.json from the table below."""
 import json
 claimed = {
+ "C04": ("exploration", "8 C04", "seeded deterministic simulation: adversarial scripted peers (independent protocol implementation) against real frps with an honest client carrying traffic; refusal, heartbeat-timeout, footprint and bystander oracles",
+         "Adversarial message histories (bad/missing/self-exempting logins, foreign/unknown work connections, unauthenticated first messages, invalid-heartbeat sessions, floods) x scopes x TLS x mux; every refused attempt must be answered by an error or a close, never by state."),
+ "C08": ("exploration", "8 C08", "seeded deterministic simulation: scripted visitors with right/wrong signatures, users and run ids against stcp/sudp/xtcp proxies with drawn allowed-user lists, interleaved with proxy close/re-open",
+         "bridged (owner sees a start / session id) implies signed and allowed; refused requests must reach neither owner nor backend; admitted plain streams are echoed byte for byte."),
+ "C15": ("fault_enumeration", "8 C15", "seeded deterministic simulation: real net/http stub plugin servers with per-operation outcomes (accept, rewrite, reject, 500, reset, malformed, unreachable) chained in drawn order; fold over the chain is the oracle",
+         "plugin outcome x operation is enumerated per run; the gated effect must equal the fold over the subscribed chain, later plugins and the server must see earlier rewrites, unsubscribed plugins see nothing, CloseProxy notifications arrive for explicit and session-end stops."),
+ "C16": ("exploration", "8 C16", "seeded deterministic simulation incl. race-detector builds: extreme-value message barrage by authenticated peers concurrent with lifecycle/group/visitor/NAT-hole traffic; any frp panic/fatal in any world, map races in frp server/pkg code, stalled sessions",
+         "Crash = unrecovered panic or runtime fatal with an frp frame on the panicking stack; race builds run the same worlds single-P under the happens-before detector and report only map accesses from frp code on both sides; every surviving session must still answer a heartbeat."),
+ "C17": ("exploration", "8 C17", "seeded deterministic simulation: independent codec interoperating with real frps in every world, wire monitor re-parsing every frame frps emits against the released field names, framing faults (1-byte chunking, EOF at offsets, unknown type, negative/oversized length with withheld body, malformed bodies)",
+         "Interoperability and wire stability are decided by an implementation written from the released protocol; bounded decoding is observed as 'closes without waiting for the announced body'."),
  "C09": ("fault_enumeration", "8 C09", "seeded deterministic simulation: scripted clients (independent protocol implementation) drive register/close/drop/squat/race histories against real frps; reference allocator + comparison with what simnet really has bound after every acknowledged step",
          "Enumerates port requests (0, in range, out of range, negative, >65535, squatted, grouped) x histories x concurrent acquirers; every outcome is compared with a sequential reference allocator and the really bound ports; listen failures are injected between availability probe and real listen (C10 shares that path)."),
  "C10": ("fault_enumeration", "8 C10", "seeded deterministic simulation: cycles of registration and termination (CloseProxy, connection drop/reset, re-login with same run id, heartbeat timeout by partition) for all proxy types, partial-failure injection, identical re-registration oracle and footprint slope test",
